@@ -1,2 +1,172 @@
-(** Placeholder until the proofs land. *)
-Require Import JF.Model.PotentialsR.
+(** * Props/C02.v — the candidate event distance inverts the cumulative uphill energy.
+
+    Specification (independent of the code): while the active unit advances by s along the motion, the separation
+    component x along the motion becomes x - s, the squared transverse distance q stays; [Eplus f breaks d] is the
+    total positive variation of the energy f along the path on [0, d], defined from explicit break points between
+    which f is monotone ([breaks_monotone x] = closest approach only).  [None] models float('inf').
+
+    PARTIAL.  Proved over the reals: inverse power potential (repulsive and attractive, general real power, with
+    the division by the speed), hard sphere (first contact, infinite iff no contact), cell bounding (constant rate),
+    totality and sign in exact arithmetic for the inverse power branches, sign of dU/ds on each piece.
+    NOT proved (tied to the code only by the kernel-checked numerical correspondence and by the positive-variation
+    oracle of harness/c02.py on every run):
+      displacement_inverts_mexhat_partial :
+        forall m in {lj_mexhat k sigma, dep_mexhat k r0 p}, 0 < q -> 0 < dE ->
+        mh_displacement m dE x q = Some d ->
+          Eplus (fun s => mh_pot m (q + (x - s)^2)) (breaks_mexhat x q (mh_r0 m)) d = dE
+        and  mh_displacement m dE x q = None -> forall d >= 0, Eplus ... d <= dE      (7 paths through the 4 cases);
+      laps_correct_partial (CoulombBoundR.ipc_displacement): Eplus of the nearest-image 1/r potential gains
+        |U(0) - U(L/2)| per box length and ipc_displacement inverts it;
+      hard dipole: first time of reaching the minimal or the maximal separation (harness oracle: exact rationals);
+      float-level totality ("returns a value for every positive budget down to denormals"): cannot be carried by a
+      real model; it is searched on every run and fails in the classes F3a-F3d (known findings). *)
+From Coq Require Import Reals Lra.
+From Coquelicot Require Import Coquelicot.
+From Interval Require Import Tactic.
+Require Import JF.Model.PotentialsR JF.Model.PotentialsRCases JF.Proofs.PotentialsRProofs.
+Open Scope R_scope.
+
+(** InversePowerPotential.displacement(velocity, separation, c1, c2, potential_change) *)
+Theorem displacement_inverts_inverse_power : forall p pref c1 c2 dE x q speed t : R,
+  0 < p -> 0 < q -> 0 < dE -> 0 < speed -> pref * (c1 * c2) <> 0 ->
+  sv_displacement (ip_displacement p pref c1 c2 dE x q) speed = Some t ->
+  0 < t /\ Eplus (ip_path p pref (c1 * c2) x q) (breaks_monotone x) (t * speed) = dE.
+Proof. exact ip_displacement_inverts. Qed.
+Print Assumptions displacement_inverts_inverse_power.
+Example displacement_inverts_inverse_power_nonvacuous :
+  sv_displacement (ip_displacement 6 1 1 1 (1 / 4) 1 1) 2 <> None.
+Proof. resolve. unfold_leaves. discriminate. Qed.
+Example displacement_inverts_inverse_power_nonvacuous_attractive :
+  sv_displacement (ip_displacement 1 1 1 (-1) (1 / 4) 1 1) 2 <> None.
+Proof. resolve. unfold_leaves. discriminate. Qed.
+
+Theorem infinite_iff_never_reached_inverse_power : forall p pref c1 c2 dE x q speed : R,
+  0 < p -> 0 < q -> 0 < dE -> 0 < speed -> pref * (c1 * c2) <> 0 ->
+  sv_displacement (ip_displacement p pref c1 c2 dE x q) speed = None ->
+  forall d, 0 <= d -> Eplus (ip_path p pref (c1 * c2) x q) (breaks_monotone x) d <= dE.
+Proof. exact ip_displacement_infinite. Qed.
+Print Assumptions infinite_iff_never_reached_inverse_power.
+Example infinite_iff_never_reached_inverse_power_nonvacuous :
+  sv_displacement (ip_displacement 6 1 1 1 (1 / 4) (-1) 1) 2 = None.
+Proof. resolve. reflexivity. Qed.
+
+(** converse for the repulsive branch: if the budget is never reached the result is infinite; and when finite the
+    event lies strictly before the closest approach, the radicand is non-negative, and the energy at the event is the
+    start energy plus the budget *)
+Theorem infinite_iff_never_reached_repulsive : forall p pref c dE x q : R,
+  0 < p -> 0 < q -> 0 < dE -> 0 < c * pref ->
+  ((forall d, 0 <= d -> Eplus (ip_path p pref c x q) (breaks_monotone x) d < dE) ->
+   ip_disp_repulsive p pref c dE x q = None) /\
+  (ip_disp_repulsive p pref c dE x q = None ->
+   forall d, 0 <= d -> Eplus (ip_path p pref c x q) (breaks_monotone x) d <= dE).
+Proof. exact ip_repulsive_infinite_iff. Qed.
+Print Assumptions infinite_iff_never_reached_repulsive.
+Example infinite_iff_never_reached_repulsive_nonvacuous : ip_disp_repulsive 2 1 1 5 1 1 = None.
+Proof. resolve. reflexivity. Qed.
+
+Theorem displacement_inverts_repulsive : forall p pref c dE x q d : R,
+  0 < p -> 0 < q -> 0 < dE -> 0 < c * pref ->
+  ip_disp_repulsive p pref c dE x q = Some d ->
+  0 < d < x /\
+  q <= Rpower (c * pref / (ip_potential p pref c (q + x * x) + dE)) (2 / p) /\
+  ip_path p pref c x q d = ip_path p pref c x q 0 + dE /\
+  Eplus (ip_path p pref c x q) (breaks_monotone x) d = dE.
+Proof. exact ip_repulsive_inverts. Qed.
+Print Assumptions displacement_inverts_repulsive.
+Example displacement_inverts_repulsive_nonvacuous : ip_disp_repulsive 2 1 1 (1 / 4) 1 1 <> None.
+Proof. resolve. unfold_leaves. discriminate. Qed.
+
+Theorem displacement_inverts_attractive : forall p pref c dE x q d : R,
+  0 < p -> 0 < q -> 0 < dE -> c * pref < 0 ->
+  ip_disp_attractive p pref c dE x q = Some d ->
+  Rmax 0 x < d /\
+  ip_path p pref c x q d = ip_path p pref c x q (Rmax 0 x) + dE /\
+  Eplus (ip_path p pref c x q) (breaks_monotone x) d = dE.
+Proof. exact ip_attractive_inverts. Qed.
+Print Assumptions displacement_inverts_attractive.
+Example displacement_inverts_attractive_nonvacuous : ip_disp_attractive 2 1 (-1) (1 / 4) 1 1 <> None.
+Proof. resolve. unfold_leaves. discriminate. Qed.
+
+Theorem infinite_iff_never_reached_attractive : forall p pref c dE x q : R,
+  0 < p -> 0 < q -> 0 < dE -> c * pref < 0 ->
+  ip_disp_attractive p pref c dE x q = None ->
+  forall d, 0 <= d -> Eplus (ip_path p pref c x q) (breaks_monotone x) d < dE.
+Proof. exact ip_attractive_infinite. Qed.
+Print Assumptions infinite_iff_never_reached_attractive.
+Example infinite_iff_never_reached_attractive_nonvacuous : ip_disp_attractive 2 1 (-1) 5 1 1 = None.
+Proof. resolve. reflexivity. Qed.
+
+(** the code's potential() is the energy k c / r^p, and the sign of its derivative along the path is constant on
+    each side of the closest approach *)
+Theorem pieces_monotone_inverse_power : forall p pref c1 c2 x q s0 : R,
+  0 < p -> 0 < q ->
+  is_derive (fun s => ip_U p (pref * c1 * c2) (sqrt (q + (x - s) * (x - s)))) s0 (ip_derivative p pref c1 c2 (x - s0) q) /\
+  (0 < pref * c1 * c2 -> (s0 < x -> 0 < ip_derivative p pref c1 c2 (x - s0) q) /\
+                         (x < s0 -> ip_derivative p pref c1 c2 (x - s0) q < 0)) /\
+  (pref * c1 * c2 < 0 -> (s0 < x -> ip_derivative p pref c1 c2 (x - s0) q < 0) /\
+                         (x < s0 -> 0 < ip_derivative p pref c1 c2 (x - s0) q)).
+Proof. exact ip_pieces_monotone. Qed.
+Print Assumptions pieces_monotone_inverse_power.
+Example pieces_monotone_inverse_power_nonvacuous : 0 < 1 * 1 * 1 /\ (0 : R) < 1. Proof. lra. Qed.
+
+Theorem potential_is_energy_inverse_power : forall p pref c r2 : R,
+  0 < r2 -> ip_potential p pref c r2 = ip_U p (c * pref) (sqrt r2).
+Proof. exact ip_potential_U. Qed.
+Print Assumptions potential_is_energy_inverse_power.
+Example potential_is_energy_inverse_power_nonvacuous : (0 : R) < 2. Proof. lra. Qed.
+
+Theorem radicands_nonneg_inverse_power : forall p pref c dE x q : R,
+  0 < p -> 0 < q -> 0 < dE -> c * pref <> 0 ->
+  let k := c * pref in
+  (0 < k -> 0 < x -> dE < ip_potential p pref c (q + 0 * 0) - ip_potential p pref c (q + x * x) ->
+     let U0 := ip_potential p pref c (q + x * x) in
+     0 < k / (U0 + dE) /\ 0 <= Rpower (k / (U0 + dE)) (2 / p) - q /\
+     0 <= until_pos x q (Rpower (k / (U0 + dE)) (2 / p))) /\
+  (k < 0 ->
+     let x1 := if Rlt_dec 0 x then 0 else x in
+     let U0 := ip_potential p pref c (q + x1 * x1) in
+     U0 + dE < 0 ->
+     0 < k / (U0 + dE) /\ 0 <= Rpower (k / (U0 + dE)) (2 / p) - q /\
+     0 <= (if Rlt_dec 0 x then x else 0) + until_neg x1 q (Rpower (k / (U0 + dE)) (2 / p))).
+Proof. exact ip_radicands_nonneg. Qed.
+Print Assumptions radicands_nonneg_inverse_power.
+Example radicands_nonneg_inverse_power_nonvacuous :
+  (1 / 4 : R) < ip_potential 2 1 1 (1 + 0 * 0) - ip_potential 2 1 1 (1 + 1 * 1).
+Proof. unfold_leaves. interval. Qed.
+
+(** HardSpherePotential.displacement(velocity, separation): general velocity; d2 = squared diameter *)
+Theorem hard_sphere_first_contact : forall (d2 : R) (v s : vec3) (t : R),
+  0 < dot3 v v -> d2 <= dot3 s s ->
+  hs_displacement d2 v s = Some t ->
+  0 <= t /\
+  dot3 (sub3 s (scal3 t v)) (sub3 s (scal3 t v)) = d2 /\
+  (forall t', 0 <= t' < t -> d2 < dot3 (sub3 s (scal3 t' v)) (sub3 s (scal3 t' v))).
+Proof. exact hs_first_contact. Qed.
+Print Assumptions hard_sphere_first_contact.
+Example hard_sphere_first_contact_nonvacuous : hs_displacement 1 (1, 0, 0) (3, 0, 0) <> None.
+Proof. resolve. unfold_leaves. discriminate. Qed.
+
+Theorem hard_sphere_infinite_iff_no_contact : forall (d2 : R) (v s : vec3),
+  0 < dot3 v v -> d2 < dot3 s s ->
+  (hs_displacement d2 v s = None <->
+   forall t, 0 <= t -> d2 < dot3 (sub3 s (scal3 t v)) (sub3 s (scal3 t v))).
+Proof. exact hs_infinite_iff_no_contact. Qed.
+Print Assumptions hard_sphere_infinite_iff_no_contact.
+Example hard_sphere_infinite_iff_no_contact_nonvacuous : hs_displacement 1 (1, 0, 0) (3, 2, 0) = None.
+Proof. resolve. reflexivity. Qed.
+
+(** CellBoundingPotential: constant bounding rate *)
+Theorem displacement_inverts_cell_bounding : forall rate dE speed t : R,
+  0 < dE -> 0 < speed ->
+  sv_displacement (cb_displacement rate dE) speed = Some t -> 0 < t /\ rate * (t * speed) = dE.
+Proof. exact cb_displacement_inverts. Qed.
+Print Assumptions displacement_inverts_cell_bounding.
+Example displacement_inverts_cell_bounding_nonvacuous : sv_displacement (cb_displacement 2 3) 1 <> None.
+Proof. resolve. unfold_leaves. discriminate. Qed.
+
+Theorem infinite_iff_cell_bounding : forall rate dE speed : R,
+  sv_displacement (cb_displacement rate dE) speed = None <-> rate <= 0.
+Proof. exact cb_infinite_iff. Qed.
+Print Assumptions infinite_iff_cell_bounding.
+Example infinite_iff_cell_bounding_nonvacuous : sv_displacement (cb_displacement (-1) 3) 1 = None.
+Proof. resolve. reflexivity. Qed.
